@@ -68,7 +68,7 @@ def rule_filters_per_appender(ctx, p, cfg, rid):
     filters (a builder, a Vec) is created inside the per-appender iteration, so nothing left over from a failed appender
     can reach the next one."""
     with ctx.rule(rid, "a fresh filter list per appender", cfg) as r:
-        f = p.fn("config::raw::RawConfig::appenders_lossy")
+        f = p.fn_loops("config::raw::RawConfig::appenders_lossy")     # (a `fold` over the filters is the loop it denotes)
         des = f.calls("config::raw::Deserializers::deserialize")
         flt = [c for c in des if any("filter" in str(t) or "Filter" in str(t) for t in c.t.get("generic_args", []))]
         app = [c for c in des if c not in flt]
